@@ -543,9 +543,15 @@ Print Assumptions iota_nth.
 
 Theorem resample_identity x : resample_fn 4 x = CS (show_cells x).
 Proof. reflexivity. Qed.
-(* (every id from 4 on is the identity) *)
-Theorem resample_identity_ge id x : (4 <= id)%nat -> resample_fn id x = CS (show_cells x).
-Proof. intros H. do 4 (destruct id as [|id]; [lia|]). reflexivity. Qed.
+(* (every id from 4 on, except 5, is the identity) *)
+Theorem resample_identity_ge id x : (4 <= id)%nat -> id <> 5%nat -> resample_fn id x = CS (show_cells x).
+Proof.
+  intros H N. do 4 (destruct id as [|id]; [lia|]). destruct id as [|id]; [reflexivity|].
+  destruct id as [|id]; [congruence|]. reflexivity.
+Qed.
+(* menu function 5 scribbles on its argument; its value is the argument's last cell *)
+Theorem resample_scribbler x : resample_fn 5 x = last x CNil.
+Proof. reflexivity. Qed.
 
 (* ---------- dec_Z is injective ---------- *)
 (* reading a decimal text back *)
